@@ -129,7 +129,9 @@ func (gg *gateGraph) BulkAdd(stream <-chan *gdbi.GraphElement) error {
 	}
 	grace := g.grace
 	g.mu.Unlock()
-	deadline := time.After(grace)
+	deadline := make(chan struct{})
+	timer := time.AfterFunc(grace, func() { close(deadline) })
+	defer timer.Stop()
 	for _, c := range before {
 		select {
 		case <-c:
